@@ -6,7 +6,7 @@ import os, sys, json, subprocess, shutil, tempfile, re
 V = os.path.dirname(os.path.dirname(os.path.abspath(__file__)))
 prop, name = sys.argv[1], sys.argv[2]
 checks = [prop] + sys.argv[3:]
-src = '/tmp/seed/%s-work' % prop
+src = os.environ.get('SEED_SRC', '/tmp/seed/%s-work' % prop)
 dst = os.path.join(V, 'seeded', name)
 if os.path.isdir(src):
     os.makedirs(dst, exist_ok=True)
@@ -20,7 +20,7 @@ if os.path.isdir(src):
 rs = os.path.join(dst, 'run.sh')
 t = open(rs).read()
 t = t.replace('/tmp/seed/build.sh', '"$(cd "$(dirname "$0")" && pwd)/../_build.sh"')
-t = re.sub(r'/tmp/seed/%s-work' % prop, '"$(cd "$(dirname "$0")" \&\& pwd)"', t) if False else t.replace('/tmp/seed/%s-work' % prop, '$(cd "$(dirname "$0")" && pwd)')
+t = t.replace(src, '$(cd "$(dirname "$0")" && pwd)')
 open(rs, 'w').write(t)
 os.chmod(rs, 0o755)
 
